@@ -171,6 +171,11 @@ pub fn judge_path(case: &Case, oc: &OracleCell, path: &Path, trace: &Trace, ci: 
         if w.0.iter().any(|x| !x.is_finite() || x.abs() > 50.0) {
             continue;
         }
+        let (dt, dr) = oracle::placement_error(&case.cell, &stack.forward_with_joint_poses(&w.0), &w.0);
+        if dt > 1e-9 || dr > 1e-8 {
+            push("p:link-placement", "link-placement", format!("the link poses used for collision checking deviate from forward kinematics of the OPW geometry by {dt:.3e} m / {dr:.3e} rad"));
+            break;
+        }
         let a = stack.forward(&w.0);
         let b = oracle::independent_forward(&case.cell, &w.0);
         if (a.translation.vector - b.translation.vector).norm() > 1e-9 || a.rotation.angle_to(&b.rotation) > 1e-8 {
